@@ -5,9 +5,10 @@ import itertools
 import re
 
 from .. import AnalysisError
+from .. import inline as _inline
 from ..flow import Flow
 from ..report import Report
-from ..util import where, mwhere, norm, names_in, call_name, arg
+from ..util import where, mwhere, norm, names_in, call_name, arg, assigned_value
 from ..variants import V
 
 PID = 'C17'
@@ -171,33 +172,92 @@ def key_tuple_tables(prog, f):
 
     -> ['<runid>', 'target', 'task', 'alg', 'state', 'value'] : component i is the parameter ``runid`` itself or
     the id returned by ``self._update_cmd(name, parent, Table.X, ...)``.
+
+    The summary is taken by role, not by position: newly extracted helpers are inlined, the returned value is followed
+    through single-definition locals (also tuple unpacking and ``a + b`` of tuples) to the tuple display, and every
+    component is followed through locals, ``<reply>[i]`` and int(...) to the one call that names its table.
     """
+    f = prog.nfunc(f.qname)
     rets = [n for n in f.own_nodes() if isinstance(n, ast.Return) and n.value is not None]
-    if len(rets) != 1 or not isinstance(rets[0].value, ast.Tuple):
+    if len(rets) != 1:
         return None
-    out = []
-    for el in rets[0].value.elts:
-        if not isinstance(el, ast.Name):
+    stores = {}
+    for n in f.own_nodes():
+        if isinstance(n, ast.Name) and isinstance(n.ctx, (ast.Store, ast.Del)):
+            stores[n.id] = stores.get(n.id, 0) + 1
+    defs = {}  # name -> ('is', value) | ('item', value, i): the only definition of a local
+    for n in f.own_nodes():
+        if isinstance(n, ast.AnnAssign) and n.value is not None and isinstance(n.target, ast.Name):
+            defs[n.target.id] = ('is', n.value)
+        elif isinstance(n, ast.NamedExpr):
+            defs[n.target.id] = ('is', n.value)
+        elif isinstance(n, ast.Assign):
+            for t in n.targets:
+                if isinstance(t, ast.Name):
+                    defs[t.id] = ('is', n.value)
+                elif isinstance(t, (ast.Tuple, ast.List)) and not any(isinstance(x, ast.Starred) for x in t.elts):
+                    for i, x in enumerate(t.elts):
+                        if isinstance(x, ast.Name):
+                            defs[x.id] = ('item', n.value, i)
+
+    def definition(name):
+        if name in f.params() or stores.get(name) != 1:
             return None
-        if el.id in f.params():
-            out.append(f'<{el.id}>')
-            continue
-        vals = [
-            n.value
-            for n in f.own_nodes()
-            if isinstance(n, ast.Assign) and any(isinstance(t, ast.Name) and t.id == el.id for t in n.targets)
-        ]
-        if len(vals) != 1:
+        return defs.get(name)
+
+    def elts(e, depth=0):
+        """components of a tuple-valued expression or None"""
+        if depth > 8:
             return None
-        tabs = {
-            a.attr
-            for a in ast.walk(vals[0])
-            if isinstance(a, ast.Attribute) and prog.resolve_in(a.value, f) == 'dawgie.db.shelve.enums.Table'
-        }
-        if len(tabs) != 1:
+        if isinstance(e, (ast.Tuple, ast.List)):
+            if any(isinstance(x, ast.Starred) for x in e.elts):
+                return None
+            return list(e.elts)
+        if isinstance(e, ast.BinOp) and isinstance(e.op, ast.Add):
+            l, r = elts(e.left, depth + 1), elts(e.right, depth + 1)
+            return None if l is None or r is None else l + r
+        if isinstance(e, ast.Call) and isinstance(e.func, ast.Name) and e.func.id == 'tuple' and len(e.args) == 1 and not e.keywords:
+            return elts(e.args[0], depth + 1)
+        if isinstance(e, ast.Name):
+            d = definition(e.id)
+            if d is not None and d[0] == 'is':
+                return elts(d[1], depth + 1)
+        return None
+
+    def table_of(e, depth=0):
+        """'<param>' or the one Table member named by the call that produces component e, else None"""
+        if depth > 8:
             return None
-        out.append(tabs.pop())
-    return out
+        if isinstance(e, ast.Name):
+            if e.id in f.params():
+                return f'<{e.id}>' if not stores.get(e.id) else None
+            d = definition(e.id)
+            if d is None:
+                return None
+            if d[0] == 'item':
+                sub = elts(d[1], depth + 1)
+                if sub is not None:  # a, b = x, y
+                    return table_of(sub[d[2]], depth + 1) if d[2] < len(sub) else None
+            return table_of(d[1], depth + 1)
+        if isinstance(e, ast.Subscript) and isinstance(e.slice, ast.Constant) and type(e.slice.value) is int:
+            return table_of(e.value, depth + 1)
+        if isinstance(e, ast.Call) and isinstance(e.func, ast.Name) and e.func.id == 'int' and len(e.args) == 1 and not e.keywords:
+            return table_of(e.args[0], depth + 1)
+        if isinstance(e, ast.Call):
+            tabs = {
+                a.attr
+                for x in list(e.args) + [k.value for k in e.keywords]
+                for a in ast.walk(x)
+                if isinstance(a, ast.Attribute) and prog.resolve_in(a.value, f) == 'dawgie.db.shelve.enums.Table'
+            }
+            return tabs.pop() if len(tabs) == 1 else None
+        return None
+
+    comps = elts(rets[0].value)
+    if comps is None:
+        return None
+    out = [table_of(el) for el in comps]
+    return None if any(t is None for t in out) else out
 
 
 # ---------------------------------------------------------------------------
@@ -1276,22 +1336,129 @@ class _Page(Flow):
                 a = call.args[1] if len(call.args) > 1 else None
                 tail = self.ev(a, st) if a is not None else ('tail',)
                 self.executes.append((call, st[0], tail))
-                if 'count(' in sql_text(call.args[0]).lower():
+                if 'count(' in sql_text(call.args[0], self.f).lower():
                     st = self.put(st, '<count-executed>', lin(1))
         return (st,)
 
 
-def sql_text(e):
-    """constant text of an SQL expression; formatted values become {name}"""
+_FIELD = re.compile(r'\{\{|\}\}|\{([^{}!:]*)(?:![rsa])?(?::[^{}]*)?\}')
+
+
+def _fmt_subst(txt, call, sub):
+    """text of ``<txt>.format(...)``: a field whose argument is itself constant text is replaced by it, every other
+    field stays symbolic as ``{<argument expression>}`` (a field without argument keeps its own name)"""
+    kws = {k.arg: k.value for k in call.keywords if k.arg is not None}
+    auto = [0]
+
+    def one(m):
+        if m.group(0) == '{{':
+            return '{'
+        if m.group(0) == '}}':
+            return '}'
+        name = m.group(1).strip()
+        head = re.split(r'[.\[]', name, maxsplit=1)[0]
+        rest = name[len(head):]
+        a = None
+        if head == '':
+            if auto[0] < len(call.args):
+                a = call.args[auto[0]]
+            auto[0] += 1
+        elif head.isdigit():
+            a = call.args[int(head)] if int(head) < len(call.args) else None
+        else:
+            a = kws.get(head)
+        if a is None or isinstance(a, ast.Starred):
+            return '{' + name + '}'
+        if not rest:
+            t = sub(a)
+            if '{?}' not in t:
+                return t
+        return '{' + norm(a) + rest + '}'
+
+    return _FIELD.sub(one, txt)
+
+
+def _text_binding(e, func, module):
+    """(value node, key, func', module') of the one definition a name / dotted name denotes, else None.
+
+    A name bound in ``func`` counts when it is stored exactly once by a plain assignment; any other name is a module
+    level constant of ``module`` with exactly one assignment, or (through the import table) of another analysed module.
+    """
+    if isinstance(e, ast.Name):
+        if func is not None:
+            if e.id in func.params():
+                return None
+            stores = [n for n in func.own_nodes() if isinstance(n, ast.Name) and n.id == e.id and isinstance(n.ctx, (ast.Store, ast.Del))]
+            if stores:
+                loc = assigned_value(func, e.id)
+                if len(loc) == 1 and len(stores) == 1:
+                    return loc[0], (func.qname, e.id), func, module
+                return None
+        vals = module.globals.get(e.id)
+        if vals is not None:
+            return (vals[0], (module.name, e.id), None, module) if len(vals) == 1 else None
+    prog = _PROG[0]
+    if prog is not None and func is not None:
+        q = prog.resolve_in(e, func)
+        if q and '.' in q:
+            mod, _, last = q.rpartition('.')
+            m = prog.modules.get(mod)
+            if m is not None and len(m.globals.get(last, ())) == 1:
+                return m.globals[last][0], (mod, last), None, m
+    return None
+
+
+def sql_text(e, func=None, _seen=(), _module=None):
+    """constant text of an SQL expression; formatted values become {name}, anything else {?}.
+
+    Followed (each is text known without running anything): string literals, implicit/explicit concatenation,
+    f-strings, ``<text>.format(...)`` and ``<text> % args`` (the %s placeholders stay as they are),
+    ``<text>.join([<text>, ..])``, names bound exactly once in ``func`` and module-level string constants.
+    """
+    module = _module if _module is not None else (func.module if func is not None else None)
+
+    def sub(x):
+        return sql_text(x, func, _seen, module)
+
     if isinstance(e, ast.Constant) and isinstance(e.value, str):
         return e.value
     if isinstance(e, ast.JoinedStr):
-        return ''.join(sql_text(v) for v in e.values)
+        return ''.join(sub(v) for v in e.values)
     if isinstance(e, ast.FormattedValue):
+        t = sub(e.value)
+        if e.format_spec is None and e.conversion in (-1, 115) and '{?}' not in t:
+            return t
         return '{' + norm(e.value) + '}'
     if isinstance(e, ast.BinOp) and isinstance(e.op, ast.Add):
-        return sql_text(e.left) + sql_text(e.right)
+        return sub(e.left) + sub(e.right)
+    if isinstance(e, ast.BinOp) and isinstance(e.op, ast.Mod):
+        t = sub(e.left)
+        return t if '{?}' not in t else '{?}'
+    if isinstance(e, ast.Call) and isinstance(e.func, ast.Attribute) and e.func.attr == 'format':
+        t = sub(e.func.value)
+        return _fmt_subst(t, e, sub) if '{?}' not in t else '{?}'
+    if (
+        isinstance(e, ast.Call)
+        and isinstance(e.func, ast.Attribute)
+        and e.func.attr == 'join'
+        and len(e.args) == 1
+        and not e.keywords
+        and isinstance(e.args[0], (ast.List, ast.Tuple))
+        and not any(isinstance(x, ast.Starred) for x in e.args[0].elts)
+    ):
+        sep = sub(e.func.value)
+        if '{?}' not in sep:
+            return sep.join(sub(x) for x in e.args[0].elts)
+    if module is not None and isinstance(e, (ast.Name, ast.Attribute)):
+        b = _text_binding(e, func, module)
+        if b is not None and b[1] not in _seen:
+            t = sql_text(b[0], b[2], _seen + (b[1],), b[3])
+            if '{?}' not in t:
+                return t
     return '{?}'
+
+
+_PROG = [None]  # the Program under analysis (set by check()): used to follow string constants imported from elsewhere
 
 
 def _cols(txt):
@@ -1395,7 +1562,7 @@ def _rule2(ctx, rep):
         pf.run(g.node, pf.init_states())
         paged = {}
         for call, tag, tail in pf.executes:
-            txt = ' '.join(sql_text(call.args[0]).split())
+            txt = ' '.join(sql_text(call.args[0], g).split())
             if re.search(r'\bLIMIT\b|\bOFFSET\b', txt, re.I):
                 paged.setdefault(id(call), [call, txt, {}])[2].setdefault(tag, set()).add(tail)
         if not paged:
@@ -1660,7 +1827,7 @@ def _rule4(ctx, rep):
         pf.run(g.node, pf.init_states())
         texts = {}
         for call, _tag, _tail in pf.executes:
-            texts[id(call)] = (call, ' '.join(sql_text(call.args[0]).split()))
+            texts[id(call)] = (call, ' '.join(sql_text(call.args[0], g).split()))
         cnt = [(c, t) for c, t in texts.values() if re.search(r'count\s*\(', t, re.I)]
         pgd = [(c, t) for c, t in texts.values() if re.search(r'\bLIMIT\b', t, re.I)]
         r.instance()
@@ -2834,15 +3001,8 @@ def _rule6(ctx, rep):
             rep.analysed(g)
 
             def text_of(e):
-                if isinstance(e, ast.Constant) and isinstance(e.value, str):
-                    return e.value
-                if isinstance(e, ast.Name):
-                    vals = g.module.globals.get(e.id, [])
-                    if len(vals) == 1 and isinstance(vals[0], ast.Constant) and isinstance(vals[0].value, str):
-                        return vals[0].value
-                if isinstance(e, ast.Call) and isinstance(e.func, ast.Attribute) and e.func.attr == 'format':
-                    return text_of(e.func.value)
-                return None
+                t = sql_text(e, g)
+                return None if '{?}' in t else t
 
             def blocks(stmts):
                 yield stmts
@@ -2960,6 +3120,10 @@ def check(ctx):
         'behaviour of the SQL statements inside PostgreSQL',
         'textual parsing of run-id expressions (_divide)',
     ]
+    # sa/inline.py caches normal forms under id(prog): a Program created after an earlier one was freed (variants
+    # analysed one after the other in one process) can get the same id and be served the earlier program's functions
+    _inline._CACHE.clear()
+    _PROG[0] = ctx.prog
     _rule1(ctx, rep)
     _rule2(ctx, rep)
     _rule3(ctx, rep)
@@ -3009,6 +3173,11 @@ VARIANTS = [
     V('inline conditional bound', 'N', _SH, _FI, 'pks[index:stop]', 'pks[index : (index + limit if limit is not None else None)]', None),
     V('bound clamped to length', 'N', _SH, _FI, 'stop = None if limit is None else index + limit', 'stop = len(pks) if limit is None else min(index + limit, len(pks))', None),
     V('post: limit normalised with an if', 'N', _PO, _FI, 'limit = total if limit is None else limit', 'if limit is None:\n                limit = total', None),
+    V('post: count statement formatted from a template held in a local', 'N', _PO, _FI, "cursor.execute(\n                'SELECT count(DISTINCT (p.run_ID, p.tn_ID, p.task_ID, '\n                f'p.alg_ID, p.sv_ID)) FROM Prime p WHERE {constraints};',\n                args,\n            )", "key = 'p.run_ID, p.tn_ID, p.task_ID, p.alg_ID, p.sv_ID'\n            count_sql = 'SELECT count(DISTINCT ({key})) ' 'FROM Prime p WHERE {where};'\n            cursor.execute(count_sql.format(key=key, where=constraints), args)", None),
+    V('post: paged statement tail concatenated with OFFSET before LIMIT', 'B', _PO, _FI, "'LIMIT %s OFFSET %s;',", "+ 'OFFSET %s ' + 'LIMIT %s;',", 'R-C17-2'),
+    V('post: templated count statement loses the state vector column', 'B', _PO, _FI, "cursor.execute(\n                'SELECT count(DISTINCT (p.run_ID, p.tn_ID, p.task_ID, '\n                f'p.alg_ID, p.sv_ID)) FROM Prime p WHERE {constraints};',\n                args,\n            )", "key = 'p.run_ID, p.tn_ID, p.task_ID, p.alg_ID'\n            count_sql = 'SELECT count(DISTINCT ({key})) ' 'FROM Prime p WHERE {where};'\n            cursor.execute(count_sql.format(key=key, where=constraints), args)", 'R-C17-4'),
+    V('key tuple built from reply temporaries', 'N', 'db/shelve/model.py', 'Interface.__to_key', 'vid = self._update_cmd(vn, sid, Table.value, None, sv[vn]._get_ver())[1]\n        return (runid, trgtid, tid, aid, sid, vid)', 'reply = self._update_cmd(vn, sid, Table.value, None, sv[vn]._get_ver())\n        vid = reply[1]\n        key = (runid, trgtid) + (tid, aid, sid, vid)\n        return key', None),
+    V('key tuple through a temporary puts the target first', 'B', 'db/shelve/model.py', 'Interface.__to_key', 'return (runid, trgtid, tid, aid, sid, vid)', 'key = (trgtid, runid, tid, aid, sid, vid)\n        return key', 'R-C17-4'),
     # ---- R-C17-3
     V('_align with tasks/targets swapped', 'B', _SH, '_align', "'targets', 'tasks'", "'tasks', 'targets'", 'R-C17-3'),
     V('_table_index: algs looked up in the task table', 'B', _SH, '_table_index', "'algs': Table.alg", "'algs': Table.task", 'R-C17-3'),
